@@ -147,7 +147,13 @@ def lpc_source(g, P, base, savebin=False):
                     calls.append('"/c07/caller"->do_eval((: %s(%s) :));' % (c[1:], largs(c[1:])))
                 else:
                     par, fn = c[1:].split(".")
-                    calls.append("%s::%s(%s);" % ("" if par == "*" else par, fn, largs(fn)))
+                    sup = "%s::%s(%s)" % ("" if par == "*" else par, fn, largs(fn))
+                    if c[0] == "J":     # the `::` call inside a functional, evaluated here
+                        calls.append("evaluate((: %s :));" % sup)
+                    elif c[0] == "K":   # ... evaluated by another object: only the pointer knows the creator's offsets
+                        calls.append('"/c07/caller"->do_eval((: %s :));' % sup)
+                    else:
+                        calls.append("%s;" % sup)
             code = (fnum(P.name) + 1) * 100 + fnum(it[2])
             wset = "w = %d; " % (code + 5000) if has_w else ""
             alog = ('VL("args" + %s); ' % " + ".join('" " + a%d' % i for i in range(arity(it[2])))) if arity(it[2]) else ""
@@ -773,13 +779,14 @@ class C07(Prop):
                     target = fn if rng.chance(4, 5) else rng.choice(fpool)
                     if fnum(target) > fnum(fn):
                         continue
+                    kind = rng.weighted([("S", 6), ("J", 2), ("K", 3)])
                     if rng.chance(1, 2):
                         if any(resolve(g, q, target) is not None for _, q in inh):
-                            calls.append("S*.%s" % target)
+                            calls.append("%s*.%s" % (kind, target))
                     else:
                         ok = [q for _, q in inh if resolve(g, q, target) is not None]
                         if ok:
-                            calls.append("S%s.%s" % (rng.choice(ok), target))
+                            calls.append("%s%s.%s" % (kind, rng.choice(ok), target))
                 # local calls / function pointers to lower-numbered names the compiler can see
                 for _ in range(rng.weighted([(0, 5), (1, 4), (2, 2)])):
                     lower = [f for f in fpool if fnum(f) < fnum(fn) and f in vis and "hidden" not in vis[f][0]
@@ -892,7 +899,7 @@ class C07(Prop):
                         if it[0] != "d":
                             continue
                         for x in it[3]:
-                            if x[0] != "S":
+                            if x[0] not in "SJK":
                                 continue
                             par, fn = x[1:].split(".")
                             for _, q in P.inherits():
@@ -934,10 +941,11 @@ class C07(Prop):
                             h["prototypes"] += 1
                         elif f[0] == "d" and f[3] != "-":
                             for x in f[3].split("+"):
-                                h[{"S": "super_calls", "L": "local_calls", "F": "fp_calls", "G": "fp_calls_evaluated_by_other_object",
-                                   "H": "functional_calls", "I": "functional_calls_evaluated_by_other_object"}[x[0]]] = \
-                                    h.get({"S": "super_calls", "L": "local_calls", "F": "fp_calls", "G": "fp_calls_evaluated_by_other_object",
-                                           "H": "functional_calls", "I": "functional_calls_evaluated_by_other_object"}[x[0]], 0) + 1
+                                kname = {"S": "super_calls", "L": "local_calls", "F": "fp_calls", "G": "fp_calls_evaluated_by_other_object",
+                                         "H": "functional_calls", "I": "functional_calls_evaluated_by_other_object",
+                                         "J": "super_calls_in_functionals",
+                                         "K": "super_calls_in_functionals_evaluated_by_other_object"}[x[0]]
+                                h[kname] = h.get(kname, 0) + 1
                     if ni > 1:
                         h["multi_inherit_programs"] += 1
             for l in impl.get(c.id, []):
